@@ -58,7 +58,7 @@ func (m *vertexMaker) key(i int) interface{} {
 	}
 }
 
-const inf = 1 << 30
+const inf = 1 << 40
 
 // refGraph is the harness's own adjacency matrix (weight -1 = absent).
 type refGraph struct {
@@ -352,6 +352,19 @@ func runC18(c *CaseCtx) (res CaseResult) {
 		return runLiveGraph(c, r, "C18")
 	}
 	ref := randomRef(r, 10)
+	if c.Idx%8 == 3 {
+		// large weights: shortest-path sums up to 2.0e9, still below the
+		// 2^31-1 "not reached" sentinel (<= 4 edges of <= 5e8)
+		ref = randomRef(r, 5)
+		for i := range ref.w {
+			for j := range ref.w[i] {
+				if ref.w[i][j] >= 0 && r.Intn(10) > 0 {
+					ref.w[i][j] = 300000000 + r.Intn(200000001)
+				}
+			}
+		}
+		res.obs("large_weight_graphs", 1)
+	}
 	vm := &vertexMaker{kind: r.Intn(4)}
 	res.Key = ref.String()
 	ne := 0
@@ -364,6 +377,13 @@ func runC18(c *CaseCtx) (res CaseResult) {
 	}
 	res.NonTrivial = ref.n >= 3 && ne >= 2
 	d := ref.floyd()
+	for i := range d {
+		for _, x := range d[i] {
+			if x < inf && x > 1<<30 {
+				res.obs("distances_above_2^30", 1)
+			}
+		}
+	}
 	reps := tierReps(c.Tier, 2, 4)
 	for k := 0; k < reps; k++ {
 		g, vs := buildGraph(ref, vm, r)
